@@ -66,6 +66,9 @@ var lintErrors = []string{
 	`set req.http.X-E = std.itoa(req.http.X-A) std.itoa(0, 1, 2);`,
 	`set var.undeclared = 1;`,
 	`set req.http.X-E = regsub(req.http.X-A);`,
+	`set req.http.X-E = helper_0();`,
+	`set var.b = helper_1("a");`,
+	`set req.http.X-E = vcl_recv();`,
 	`error;`,
 	`error 999 "a" "b";`,
 	`error var.i;`,
